@@ -2,6 +2,9 @@ import FeatModel.Lemmas.C06Unit
 import FeatModel.Lemmas.C06Mean
 import FeatModel.Lemmas.C06Slip
 import FeatModel.Lemmas.C06Mat
+import FeatModel.Lemmas.C06Blocked
+import FeatModel.Lemmas.C06MeanB
+import FeatModel.Lemmas.C06MatB
 /-! # C06 — filters impose their constraints exactly and idempotently
 
 All statements are about the functions of `FeatModel/Model/LA/Filter.lean` (and `FilterMat.lean`) that `drv_c06`
@@ -451,3 +454,497 @@ example :
     let f : UnitF Nat := { size := 2, es := [(0, 9)] }
     A.wf = true ∧ (f.filterMat A).map (fun B => (B.val, B.entry 0 0, B.entry 0 1, B.entry 1 1)) = some (#[1, 0, 7], 1, 0, 7) := by
   decide +kernel
+
+
+/-! ## blocked unit filter on vectors (`UnitFilterBlocked`): per pod entry `bs * i + j`.
+    `f.skip x` is `_ignore_nans && Math::isnan(x)`; block indices pairwise different (what `add` guarantees). -/
+
+/-- `filter_rhs/sol` (`modeVal = id`) write the prescribed component, `filter_def/cor` (`modeVal = 0`) write zero -
+    for every component that is not marked NaN-to-be-ignored -/
+theorem C06.unitB_constrained {α : Type} [Zero α] (m : Mode) (f : UnitBF α) (v w : List α)
+    (hn : (f.es.map Prod.fst).Nodup) (hrun : f.apply m v = some w) (e : Nat × List α) (he : e ∈ f.es)
+    (j : Nat) (hj : j < f.bs) (hs : f.skip (e.2.getD j 0) = false) (hin : f.bs * e.1 + j < v.length) :
+    w[f.bs * e.1 + j]? = some (modeVal m (e.2.getD j 0)) := by
+  rcases unitB_apply_spec m f v w hrun with ⟨h0, _⟩ | ⟨_, _, hw⟩
+  · rw [h0] at he; simp at he
+  · rw [hw, getElem?_scatter_pod_mem f.bs f.skip (modeVal m) f.es hn v e he j hj, if_pos hs]
+    simp [hin]
+
+/-- `ignore_nans`: a component whose filter value is NaN is left untouched (all four modes) -/
+theorem C06.unitB_nan_component_untouched {α : Type} [Zero α] (m : Mode) (f : UnitBF α) (v w : List α)
+    (hn : (f.es.map Prod.fst).Nodup) (hrun : f.apply m v = some w) (e : Nat × List α) (he : e ∈ f.es)
+    (j : Nat) (hj : j < f.bs) (hs : f.skip (e.2.getD j 0) = true) :
+    w[f.bs * e.1 + j]? = v[f.bs * e.1 + j]? := by
+  rcases unitB_apply_spec m f v w hrun with ⟨_, hw⟩ | ⟨_, _, hw⟩
+  · rw [hw]
+  · rw [hw, getElem?_scatter_pod_mem f.bs f.skip (modeVal m) f.es hn v e he j hj, if_neg (by rw [hs]; simp)]
+
+/-- every pod entry outside the constrained blocks is unchanged and the length is kept (all four modes) -/
+theorem C06.unitB_unconstrained_untouched {α : Type} [Zero α] (m : Mode) (f : UnitBF α) (v w : List α)
+    (hrun : f.apply m v = some w) (p : Nat) (hp : ∀ e ∈ f.es, ¬ (f.bs * e.1 ≤ p ∧ p < f.bs * e.1 + f.bs)) :
+    w[p]? = v[p]? ∧ w.length = v.length := by
+  rcases unitB_apply_spec m f v w hrun with ⟨_, hw⟩ | ⟨_, _, hw⟩
+  · rw [hw]; exact ⟨rfl, rfl⟩
+  · rw [hw]
+    exact ⟨getElem?_scatter_pod_free f.bs f.skip (modeVal m) f.es v p hp, length_scatter _ _⟩
+
+/-- applying the same blocked unit filter again changes nothing (all four modes, any entry list) -/
+theorem C06.unitB_idempotent {α : Type} [Zero α] (m : Mode) (f : UnitBF α) (v w : List α)
+    (hrun : f.apply m v = some w) : f.apply m w = some w := by
+  cases m <;> simp only [UnitBF.apply, UnitBF.filterRhs, UnitBF.filterDef] at hrun ⊢ <;>
+    (split at hrun
+     · simp only [Option.some.injEq] at hrun; subst hrun; rename_i he; simp [he]
+     · rename_i he
+       split at hrun
+       · simp at hrun
+       · rename_i hs
+         simp only [Option.some.injEq] at hrun
+         subst hrun
+         simp only [he, length_scatter, hs, scatter_idem]
+         simp)
+
+/-! ## combinators, one statement per member function: `TupleFilter` / `PowerFilter` call the SAME member function
+    of sub-filter `k` on component `k`; `FilterChain` / `FilterSequence` call the SAME member function of every
+    sub-filter in order on the same vector.  (`Flt.apply m` is `filter_rhs/sol/def/cor` for `m = rhs/sol/defect/cor`.) -/
+
+/-- tuple / power, any member function `m`: the call succeeds with `ws` iff there are as many components as
+    sub-filters and sub-filter `k` applied in the same mode `m` to component `k` gives `ws[k]` -/
+theorem C06.tuple_dispatch {α : Type} [Zero α] [One α] [Add α] [Mul α] [Sub α] [Neg α] [Div α] [DecidableEq α]
+    (m : Mode) (fs : List (Flt α)) (vs ws : List (Vec α)) :
+    applyTuple m fs vs = some ws ↔
+      (fs.length = vs.length ∧ ws.length = vs.length ∧
+        ∀ k (hk : k < fs.length) (hv : k < vs.length) (hw : k < ws.length), fs[k].apply m vs[k] = some ws[k]) := by
+  induction fs generalizing vs ws with
+  | nil =>
+    cases vs with
+    | nil =>
+      simp only [applyTuple, Option.some.injEq, List.length_nil]
+      constructor
+      · intro h; subst h; exact ⟨trivial, rfl, fun k hk => absurd hk (by simp)⟩
+      · intro h; exact (List.eq_nil_of_length_eq_zero h.2.1).symm
+    | cons v vt => simp [applyTuple]
+  | cons f ft ih =>
+    cases vs with
+    | nil => simp [applyTuple]
+    | cons v vt =>
+      simp only [applyTuple]
+      constructor
+      · intro h
+        cases h1 : f.apply m v with
+        | none => simp [h1] at h
+        | some a =>
+          cases h2 : applyTuple m ft vt with
+          | none => simp [h1, h2] at h
+          | some b =>
+            simp only [h1, h2, Option.some.injEq] at h
+            subst h
+            obtain ⟨i1, i2, i3⟩ := (ih vt b).mp h2
+            refine ⟨by simp [i1], by simp [i2], ?_⟩
+            intro k hk hv hw
+            cases k with
+            | zero => simpa using h1
+            | succ k => simpa using i3 k (by simpa using hk) (by simpa using hv) (by simpa using hw)
+      · intro ⟨h1, h2, h3⟩
+        cases ws with
+        | nil => simp at h2
+        | cons a b =>
+          have e0 := h3 0 (by simp) (by simp) (by simp)
+          simp only [List.getElem_cons_zero] at e0
+          have e1 : applyTuple m ft vt = some b := by
+            apply (ih vt b).mpr
+            refine ⟨by simpa using h1, by simpa using h2, ?_⟩
+            intro k hk hv hw
+            have := h3 (k + 1) (by simpa using hk) (by simpa using hv) (by simpa using hw)
+            simpa using this
+          simp [e0, e1]
+
+theorem C06.tuple_filter_rhs {α : Type} [Zero α] [One α] [Add α] [Mul α] [Sub α] [Neg α] [Div α] [DecidableEq α]
+    (fs : List (Flt α)) (vs ws : List (Vec α)) (h : (Flt.tuple fs).apply Mode.rhs (Vec.node vs) = some (Vec.node ws))
+    (k : Nat) (hk : k < fs.length) (hv : k < vs.length) (hw : k < ws.length) :
+    fs[k].apply Mode.rhs vs[k] = some ws[k] := by
+  simp only [Flt.apply] at h
+  cases h1 : applyTuple Mode.rhs fs vs with
+  | none => simp [h1] at h
+  | some b => simp only [h1, Option.map_some, Option.some.injEq, Vec.node.injEq] at h; subst h
+              exact ((C06.tuple_dispatch Mode.rhs fs vs b).mp h1).2.2 k hk hv hw
+
+theorem C06.tuple_filter_sol {α : Type} [Zero α] [One α] [Add α] [Mul α] [Sub α] [Neg α] [Div α] [DecidableEq α]
+    (fs : List (Flt α)) (vs ws : List (Vec α)) (h : (Flt.tuple fs).apply Mode.sol (Vec.node vs) = some (Vec.node ws))
+    (k : Nat) (hk : k < fs.length) (hv : k < vs.length) (hw : k < ws.length) :
+    fs[k].apply Mode.sol vs[k] = some ws[k] := by
+  simp only [Flt.apply] at h
+  cases h1 : applyTuple Mode.sol fs vs with
+  | none => simp [h1] at h
+  | some b => simp only [h1, Option.map_some, Option.some.injEq, Vec.node.injEq] at h; subst h
+              exact ((C06.tuple_dispatch Mode.sol fs vs b).mp h1).2.2 k hk hv hw
+
+theorem C06.tuple_filter_def {α : Type} [Zero α] [One α] [Add α] [Mul α] [Sub α] [Neg α] [Div α] [DecidableEq α]
+    (fs : List (Flt α)) (vs ws : List (Vec α)) (h : (Flt.tuple fs).apply Mode.defect (Vec.node vs) = some (Vec.node ws))
+    (k : Nat) (hk : k < fs.length) (hv : k < vs.length) (hw : k < ws.length) :
+    fs[k].apply Mode.defect vs[k] = some ws[k] := by
+  simp only [Flt.apply] at h
+  cases h1 : applyTuple Mode.defect fs vs with
+  | none => simp [h1] at h
+  | some b => simp only [h1, Option.map_some, Option.some.injEq, Vec.node.injEq] at h; subst h
+              exact ((C06.tuple_dispatch Mode.defect fs vs b).mp h1).2.2 k hk hv hw
+
+theorem C06.tuple_filter_cor {α : Type} [Zero α] [One α] [Add α] [Mul α] [Sub α] [Neg α] [Div α] [DecidableEq α]
+    (fs : List (Flt α)) (vs ws : List (Vec α)) (h : (Flt.tuple fs).apply Mode.cor (Vec.node vs) = some (Vec.node ws))
+    (k : Nat) (hk : k < fs.length) (hv : k < vs.length) (hw : k < ws.length) :
+    fs[k].apply Mode.cor vs[k] = some ws[k] := by
+  simp only [Flt.apply] at h
+  cases h1 : applyTuple Mode.cor fs vs with
+  | none => simp [h1] at h
+  | some b => simp only [h1, Option.map_some, Option.some.injEq, Vec.node.injEq] at h; subst h
+              exact ((C06.tuple_dispatch Mode.cor fs vs b).mp h1).2.2 k hk hv hw
+
+/-- chain / sequence, any member function `m`: the members are applied left to right, each in the same mode `m`,
+    each to the result of its predecessor -/
+theorem C06.chain_dispatch {α : Type} [Zero α] [One α] [Add α] [Mul α] [Sub α] [Neg α] [Div α] [DecidableEq α]
+    (m : Mode) (fs : List (Flt α)) (v : Vec α) :
+    (Flt.chain fs).apply m v = fs.foldl (fun acc f => acc.bind (f.apply m)) (some v) := by
+  have key : ∀ (fs : List (Flt α)) (o : Option (Vec α)),
+      fs.foldl (fun acc f => acc.bind (f.apply m)) o = o.bind (applyChain m fs) := by
+    intro fs
+    induction fs with
+    | nil => intro o; cases o <;> simp [applyChain]
+    | cons f t ih =>
+      intro o
+      simp only [List.foldl_cons, ih]
+      cases o with
+      | none => simp
+      | some u =>
+        simp only [Option.bind_some, applyChain]
+        cases f.apply m u <;> simp
+  rw [key]
+  simp [Flt.apply]
+
+theorem C06.chain_filter_rhs {α : Type} [Zero α] [One α] [Add α] [Mul α] [Sub α] [Neg α] [Div α] [DecidableEq α]
+    (f : Flt α) (fs : List (Flt α)) (v : Vec α) :
+    (Flt.chain (f :: fs)).apply Mode.rhs v = (f.apply Mode.rhs v).bind ((Flt.chain fs).apply Mode.rhs) := by
+  simp only [Flt.apply, applyChain]; cases f.apply Mode.rhs v <;> simp [Flt.apply]
+
+theorem C06.chain_filter_sol {α : Type} [Zero α] [One α] [Add α] [Mul α] [Sub α] [Neg α] [Div α] [DecidableEq α]
+    (f : Flt α) (fs : List (Flt α)) (v : Vec α) :
+    (Flt.chain (f :: fs)).apply Mode.sol v = (f.apply Mode.sol v).bind ((Flt.chain fs).apply Mode.sol) := by
+  simp only [Flt.apply, applyChain]; cases f.apply Mode.sol v <;> simp [Flt.apply]
+
+theorem C06.chain_filter_def {α : Type} [Zero α] [One α] [Add α] [Mul α] [Sub α] [Neg α] [Div α] [DecidableEq α]
+    (f : Flt α) (fs : List (Flt α)) (v : Vec α) :
+    (Flt.chain (f :: fs)).apply Mode.defect v = (f.apply Mode.defect v).bind ((Flt.chain fs).apply Mode.defect) := by
+  simp only [Flt.apply, applyChain]; cases f.apply Mode.defect v <;> simp [Flt.apply]
+
+theorem C06.chain_filter_cor {α : Type} [Zero α] [One α] [Add α] [Mul α] [Sub α] [Neg α] [Div α] [DecidableEq α]
+    (f : Flt α) (fs : List (Flt α)) (v : Vec α) :
+    (Flt.chain (f :: fs)).apply Mode.cor v = (f.apply Mode.cor v).bind ((Flt.chain fs).apply Mode.cor) := by
+  simp only [Flt.apply, applyChain]; cases f.apply Mode.cor v <;> simp [Flt.apply]
+
+/-- `filter_mat` of a chain / sequence: `filter_mat` of every member in order (unit: rows rewritten; mean, none:
+    nothing) -/
+theorem C06.chain_filter_mat {α : Type} [Zero α] [One α] [Mul α] (f : Flt α) (fs : List (Flt α))
+    (A : FeatModel.LA.Csr α) :
+    (Flt.chain (f :: fs)).filterMat A = (f.filterMat A).bind ((Flt.chain fs).filterMat) := by
+  simp only [Flt.filterMat, filterMatChain]; cases f.filterMat A <;> simp [Flt.filterMat]
+
+/-- the four member functions of the leaves really differ, so the dispatch statements are not vacuous:
+    a unit filter separates {rhs, sol} from {def, cor}; a mean filter with non-parallel weights and a non-zero
+    solution mean separates {rhs, def}, {sol} and {cor}; a chain of both separates all four -/
+example :
+    let u : Flt Rat := .unit { size := 2, es := [(0, 7)] }
+    let mf : Flt Rat := .mean { prim := [1, 2], dual := [3, 1], vol := 5, sol := 4 }
+    let c : Flt Rat := .chain [u, mf]
+    let v : Vec Rat := .leaf [1, 1]
+    let r := fun (m : Mode) => (c.apply m v).map Vec.leaves
+    r .rhs ≠ r .sol ∧ r .rhs ≠ r .defect ∧ r .rhs ≠ r .cor ∧ r .sol ≠ r .defect ∧ r .sol ≠ r .cor ∧ r .defect ≠ r .cor := by
+  decide +kernel
+
+
+/-! ## blocked mean filter (`MeanFilterBlocked`), per block component `j`: `col bs j x` is the scalar vector of
+    component `j`; the volume of the component must be consistent and non-zero (cf. finding `c06-edge:F1`: the
+    constructor does not check the components) -/
+
+/-- `filter_cor`: component `j` of the result has zero primal mean -/
+theorem C06.meanB_cor_zero {α : Type} [Field α] [DecidableEq α] (f : MeanBF α) (v w : List α) (j : Nat)
+    (hj : j < f.bs) (hvol : f.vol.getD j 0 = dotL (col f.bs j f.prim) (col f.bs j f.dual))
+    (hnz : f.vol.getD j 0 ≠ 0) (hne : f.prim ≠ []) (hrun : f.filterCor v = some w) :
+    dotL (col f.bs j w) (col f.bs j f.dual) = 0 := by
+  unfold MeanBF.filterCor at hrun
+  have hemp : f.prim.isEmpty = false := by cases h : f.prim <;> simp_all
+  simp only [hemp, Bool.false_eq_true, if_false] at hrun
+  obtain ⟨hl, hc⟩ := dotAxpyB_spec f v f.dual f.prim w _ hrun j hj
+  rw [hc, dotL_axpyL _ _ _ _ (by rw [length_col, length_col, hl]), ← hvol]
+  field_simp
+  ring
+
+/-- `filter_rhs` / `filter_def`: component `j` of the result has zero dual mean -/
+theorem C06.meanB_rhs_zero {α : Type} [Field α] [DecidableEq α] (f : MeanBF α) (v w : List α) (j : Nat)
+    (hj : j < f.bs) (hvol : f.vol.getD j 0 = dotL (col f.bs j f.prim) (col f.bs j f.dual))
+    (hnz : f.vol.getD j 0 ≠ 0) (hne : f.prim ≠ []) (hrun : f.filterRhs v = some w) :
+    dotL (col f.bs j w) (col f.bs j f.prim) = 0 := by
+  unfold MeanBF.filterRhs at hrun
+  have hemp : f.prim.isEmpty = false := by cases h : f.prim <;> simp_all
+  simp only [hemp, Bool.false_eq_true, if_false] at hrun
+  obtain ⟨hl, hc⟩ := dotAxpyB_spec f v f.prim f.dual w _ hrun j hj
+  rw [hc, dotL_axpyL _ _ _ _ (by rw [length_col, length_col, hl]),
+    dotL_comm (col f.bs j f.dual) (col f.bs j f.prim), ← hvol]
+  field_simp
+  ring
+
+/-- `filter_sol`: the weighted mean of component `j` is the prescribed solution mean of that component -/
+theorem C06.meanB_sol {α : Type} [Field α] [DecidableEq α] (f : MeanBF α) (v w : List α) (j : Nat)
+    (hj : j < f.bs) (hvol : f.vol.getD j 0 = dotL (col f.bs j f.prim) (col f.bs j f.dual))
+    (hnz : f.vol.getD j 0 ≠ 0) (hne : f.prim ≠ []) (hrun : f.filterSol v = some w) :
+    dotL (col f.bs j w) (col f.bs j f.dual) / f.vol.getD j 0 = f.sol.getD j 0 := by
+  unfold MeanBF.filterSol at hrun
+  have hemp : f.prim.isEmpty = false := by cases h : f.prim <;> simp_all
+  simp only [hemp, Bool.false_eq_true, if_false] at hrun
+  obtain ⟨hl, hc⟩ := dotAxpyB_spec f v f.dual f.prim w _ hrun j hj
+  rw [hc, dotL_axpyL _ _ _ _ (by rw [length_col, length_col, hl]), ← hvol]
+  field_simp
+  ring
+
+
+/-! ## blocked unit filter on a well-formed BCSR matrix, for ALL block shapes `bh x bw` (square or not), per stored
+    scalar `v[j][k][l]` (`UnitBF.pod A j k l`): block `j` of the constrained block row, block-row component `k`,
+    column component `l`.  `f.skip x` is `_ignore_nans && isnan(x)`. -/
+
+/-- `filter_mat`: in a constrained block row every stored block becomes zero, except that the diagonal block
+    (`col_idx[j] == row`) gets ones on its diagonal `k = l` (for `bh > bw` the rows `k ≥ bw` have no such entry and
+    become zero rows); block-row components whose filter value is an ignored NaN are left untouched -/
+theorem C06.unitB_mat_rows {α : Type} [Zero α] [One α] [Mul α] (f : UnitBF α) (A B : FeatModel.LA.Bcsr α)
+    (hwf : A.wf = true) (hn : (f.es.map Prod.fst).Nodup) (hes : ∀ e ∈ f.es, e.1 < A.rows)
+    (hrun : f.filterMat A = some B) (e0 : Nat × List α) (he0 : e0 ∈ f.es) (j0 k0 l0 : Nat)
+    (hj0 : A.rowPtr.getD e0.1 0 ≤ j0 ∧ j0 < A.rowPtr.getD (e0.1 + 1) 0) (hk0 : k0 < A.bh) (hl0 : l0 < A.bw) :
+    B.val.getD (UnitBF.pod A j0 k0 l0) 0 =
+      if f.skip (e0.2.getD k0 0) then A.val.getD (UnitBF.pod A j0 k0 l0) 0
+      else if A.colInd.getD j0 0 = e0.1 ∧ k0 = l0 then 1 else 0 := by
+  have W := C02L.Conv.bcsr_wf_of A hwf
+  have hq := pod_lt W (hes e0 he0) hj0.2 hk0 hl0
+  unfold UnitBF.filterMat at hrun
+  have hemp : f.es.isEmpty = false := by cases h : f.es <;> simp_all
+  simp only [hemp, Bool.false_eq_true, if_false] at hrun
+  split at hrun
+  · simp at hrun
+  · simp only [Option.some.injEq] at hrun
+    rw [← hrun]
+    show (UnitBF.matVals f.skip A f.es).getD _ 0 = _
+    rw [matVals_eq]
+    have hloc : ∀ (e : Nat × List α) j k, k < A.bh → ¬ (j = j0 ∧ k = k0) →
+        ∀ y, phiMat f.skip A (UnitBF.pod A j0 k0 l0) e j k y = y := by
+      intro e j k hk hne y
+      have hseg := seg_other A hk hk0 hl0 hne
+      unfold phiMat
+      by_cases hs : f.skip (e.2.getD k 0)
+      · simp only [hs, if_true]
+      · simp only [hs, Bool.false_eq_true, if_false]
+        have h1 : ¬ ((A.colInd.getD j 0 = e.1 ∧ k < A.bw) ∧ UnitBF.pod A j k k = UnitBF.pod A j0 k0 l0) := by
+          intro hh
+          apply hseg
+          have hkw := hh.1.2
+          have hp := hh.2
+          unfold UnitBF.pod at hp ⊢
+          omega
+        rw [if_neg h1, if_neg hseg]
+    rw [(getD_rewriteBlocks W f.es hn hes (bodyMat f.skip A) (phiMat f.skip A (UnitBF.pod A j0 k0 l0)) _
+      (size_bodyMat f.skip A) (fun e j k v hv => getD_bodyMat f.skip A _ e j k v hv) j0 k0 hk0 hloc e0.1
+      (hes e0 he0) hj0 A.val hq).1 e0 he0 rfl]
+    unfold phiMat
+    by_cases hs : f.skip (e0.2.getD k0 0)
+    · simp only [hs, if_true]
+    · simp only [hs, Bool.false_eq_true, if_false]
+      have hseg : UnitBF.pod A j0 k0 0 ≤ UnitBF.pod A j0 k0 l0 ∧
+          UnitBF.pod A j0 k0 l0 < UnitBF.pod A j0 k0 0 + A.bw := by unfold UnitBF.pod; omega
+      by_cases hd : A.colInd.getD j0 0 = e0.1 ∧ k0 = l0
+      · have : (A.colInd.getD j0 0 = e0.1 ∧ k0 < A.bw) ∧ UnitBF.pod A j0 k0 k0 = UnitBF.pod A j0 k0 l0 :=
+          ⟨⟨hd.1, by omega⟩, by rw [hd.2]⟩
+        rw [if_pos this, if_pos hd]
+      · have : ¬ ((A.colInd.getD j0 0 = e0.1 ∧ k0 < A.bw) ∧ UnitBF.pod A j0 k0 k0 = UnitBF.pod A j0 k0 l0) := by
+          intro hh
+          apply hd
+          refine ⟨hh.1.1, ?_⟩
+          have hp := hh.2
+          unfold UnitBF.pod at hp
+          omega
+        rw [if_neg this, if_pos hseg, if_neg hd]
+
+/-- `filter_offdiag_row_mat`: constrained block rows become zero (ignored NaN components untouched) -/
+theorem C06.unitB_offdiag_rows {α : Type} [Zero α] [One α] [Mul α] (f : UnitBF α) (A B : FeatModel.LA.Bcsr α)
+    (hwf : A.wf = true) (hn : (f.es.map Prod.fst).Nodup) (hes : ∀ e ∈ f.es, e.1 < A.rows)
+    (hrun : f.filterOffdiagRowMat A = some B) (e0 : Nat × List α) (he0 : e0 ∈ f.es) (j0 k0 l0 : Nat)
+    (hj0 : A.rowPtr.getD e0.1 0 ≤ j0 ∧ j0 < A.rowPtr.getD (e0.1 + 1) 0) (hk0 : k0 < A.bh) (hl0 : l0 < A.bw) :
+    B.val.getD (UnitBF.pod A j0 k0 l0) 0 =
+      if f.skip (e0.2.getD k0 0) then A.val.getD (UnitBF.pod A j0 k0 l0) 0 else 0 := by
+  have W := C02L.Conv.bcsr_wf_of A hwf
+  have hq := pod_lt W (hes e0 he0) hj0.2 hk0 hl0
+  unfold UnitBF.filterOffdiagRowMat at hrun
+  have hemp : f.es.isEmpty = false := by cases h : f.es <;> simp_all
+  simp only [hemp, Bool.false_eq_true, if_false] at hrun
+  split at hrun
+  · simp at hrun
+  · simp only [Option.some.injEq] at hrun
+    rw [← hrun]
+    show (UnitBF.offdiagVals f.skip A f.es).getD _ 0 = _
+    rw [offdiagVals_eq]
+    have hloc : ∀ (e : Nat × List α) j k, k < A.bh → ¬ (j = j0 ∧ k = k0) →
+        ∀ y, phiOff f.skip A (UnitBF.pod A j0 k0 l0) e j k y = y := by
+      intro e j k hk hne y
+      have hseg := seg_other A hk hk0 hl0 hne
+      unfold phiOff
+      by_cases hs : f.skip (e.2.getD k 0)
+      · simp only [hs, if_true]
+      · simp only [hs, Bool.false_eq_true, if_false]
+        rw [if_neg hseg]
+    rw [(getD_rewriteBlocks W f.es hn hes (bodyOff f.skip A) (phiOff f.skip A (UnitBF.pod A j0 k0 l0)) _
+      (size_bodyOff f.skip A) (fun e j k v hv => getD_bodyOff f.skip A _ e j k v hv) j0 k0 hk0 hloc e0.1
+      (hes e0 he0) hj0 A.val hq).1 e0 he0 rfl]
+    unfold phiOff
+    have hseg : UnitBF.pod A j0 k0 0 ≤ UnitBF.pod A j0 k0 l0 ∧
+        UnitBF.pod A j0 k0 l0 < UnitBF.pod A j0 k0 0 + A.bw := by unfold UnitBF.pod; omega
+    rw [if_pos hseg]
+
+/-- `filter_weak_matrix_rows`: a constrained block row of `A` becomes `diag(value) * ` the same row of `M` -/
+theorem C06.unitB_weak_rows {α : Type} [Zero α] [One α] [Mul α] (f : UnitBF α) (A B : FeatModel.LA.Bcsr α)
+    (valM : Array α) (hwf : A.wf = true) (hn : (f.es.map Prod.fst).Nodup) (hes : ∀ e ∈ f.es, e.1 < A.rows)
+    (hrun : f.filterWeakMatrixRows A valM = some B) (e0 : Nat × List α) (he0 : e0 ∈ f.es) (j0 k0 l0 : Nat)
+    (hj0 : A.rowPtr.getD e0.1 0 ≤ j0 ∧ j0 < A.rowPtr.getD (e0.1 + 1) 0) (hk0 : k0 < A.bh) (hl0 : l0 < A.bw) :
+    B.val.getD (UnitBF.pod A j0 k0 l0) 0 = e0.2.getD k0 0 * valM.getD (UnitBF.pod A j0 k0 l0) 0 := by
+  have W := C02L.Conv.bcsr_wf_of A hwf
+  have hq := pod_lt W (hes e0 he0) hj0.2 hk0 hl0
+  unfold UnitBF.filterWeakMatrixRows at hrun
+  have hemp : f.es.isEmpty = false := by cases h : f.es <;> simp_all
+  simp only [hemp, Bool.false_eq_true, if_false] at hrun
+  split at hrun
+  · simp at hrun
+  · simp only [Option.some.injEq] at hrun
+    rw [← hrun]
+    show (UnitBF.weakVals A valM f.es).getD _ 0 = _
+    rw [weakVals_eq]
+    have hloc : ∀ (e : Nat × List α) j k, k < A.bh → ¬ (j = j0 ∧ k = k0) →
+        ∀ y, phiWeak A valM (UnitBF.pod A j0 k0 l0) e j k y = y := by
+      intro e j k hk hne y
+      unfold phiWeak
+      rw [if_neg (seg_other A hk hk0 hl0 hne)]
+    rw [(getD_rewriteBlocks W f.es hn hes (bodyWeak A valM) (phiWeak A valM (UnitBF.pod A j0 k0 l0)) _
+      (fun e j k v => by unfold bodyWeak; exact size_setRange _ _ _ _)
+      (fun e j k v hv => getD_bodyWeak A valM _ e j k v hv) j0 k0 hk0 hloc e0.1
+      (hes e0 he0) hj0 A.val hq).1 e0 he0 rfl]
+    unfold phiWeak
+    have hseg : UnitBF.pod A j0 k0 0 ≤ UnitBF.pod A j0 k0 l0 ∧
+        UnitBF.pod A j0 k0 l0 < UnitBF.pod A j0 k0 0 + A.bw := by unfold UnitBF.pod; omega
+    rw [if_pos hseg]
+
+/-- all three matrix members: the stored scalars of block rows that no entry constrains are unchanged -/
+theorem C06.unitB_mat_other_rows_untouched {α : Type} [Zero α] [One α] [Mul α] (f : UnitBF α)
+    (A : FeatModel.LA.Bcsr α) (valM : Array α) (hwf : A.wf = true) (hn : (f.es.map Prod.fst).Nodup)
+    (hes : ∀ e ∈ f.es, e.1 < A.rows) (i0 j0 k0 l0 : Nat) (hi0 : i0 < A.rows) (hfree : ∀ e ∈ f.es, e.1 ≠ i0)
+    (hj0 : A.rowPtr.getD i0 0 ≤ j0 ∧ j0 < A.rowPtr.getD (i0 + 1) 0) (hk0 : k0 < A.bh) (hl0 : l0 < A.bw) :
+    (UnitBF.matVals f.skip A f.es).getD (UnitBF.pod A j0 k0 l0) 0 = A.val.getD (UnitBF.pod A j0 k0 l0) 0 ∧
+    (UnitBF.offdiagVals f.skip A f.es).getD (UnitBF.pod A j0 k0 l0) 0 = A.val.getD (UnitBF.pod A j0 k0 l0) 0 ∧
+    (UnitBF.weakVals A valM f.es).getD (UnitBF.pod A j0 k0 l0) 0 = A.val.getD (UnitBF.pod A j0 k0 l0) 0 := by
+  have W := C02L.Conv.bcsr_wf_of A hwf
+  have hq := pod_lt W hi0 hj0.2 hk0 hl0
+  refine ⟨?_, ?_, ?_⟩
+  · rw [matVals_eq]
+    refine (getD_rewriteBlocks W f.es hn hes (bodyMat f.skip A) (phiMat f.skip A (UnitBF.pod A j0 k0 l0)) _
+      (size_bodyMat f.skip A) (fun e j k v hv => getD_bodyMat f.skip A _ e j k v hv) j0 k0 hk0 ?_ i0 hi0 hj0
+      A.val hq).2 hfree
+    intro e j k hk hne y
+    have hseg := seg_other A hk hk0 hl0 hne
+    unfold phiMat
+    by_cases hs : f.skip (e.2.getD k 0)
+    · simp only [hs, if_true]
+    · simp only [hs, Bool.false_eq_true, if_false]
+      have h1 : ¬ ((A.colInd.getD j 0 = e.1 ∧ k < A.bw) ∧ UnitBF.pod A j k k = UnitBF.pod A j0 k0 l0) := by
+        intro hh
+        apply hseg
+        have hkw := hh.1.2
+        have hp := hh.2
+        unfold UnitBF.pod at hp ⊢
+        omega
+      rw [if_neg h1, if_neg hseg]
+  · rw [offdiagVals_eq]
+    refine (getD_rewriteBlocks W f.es hn hes (bodyOff f.skip A) (phiOff f.skip A (UnitBF.pod A j0 k0 l0)) _
+      (size_bodyOff f.skip A) (fun e j k v hv => getD_bodyOff f.skip A _ e j k v hv) j0 k0 hk0 ?_ i0 hi0 hj0
+      A.val hq).2 hfree
+    intro e j k hk hne y
+    unfold phiOff
+    by_cases hs : f.skip (e.2.getD k 0)
+    · simp only [hs, if_true]
+    · simp only [hs, Bool.false_eq_true, if_false]
+      rw [if_neg (seg_other A hk hk0 hl0 hne)]
+  · rw [weakVals_eq]
+    refine (getD_rewriteBlocks W f.es hn hes (bodyWeak A valM) (phiWeak A valM (UnitBF.pod A j0 k0 l0)) _
+      (fun e j k v => by unfold bodyWeak; exact size_setRange _ _ _ _)
+      (fun e j k v hv => getD_bodyWeak A valM _ e j k v hv) j0 k0 hk0 ?_ i0 hi0 hj0 A.val hq).2 hfree
+    intro e j k hk hne y
+    unfold phiWeak
+    rw [if_neg (seg_other A hk hk0 hl0 hne)]
+
+/-! ## Global::MeanFilter (one rank; `wdot` = the `triple_dot` with the frequency vector + allreduce when a communicator
+    and frequencies are present, the plain `dot` otherwise) and Global::Filter.
+    `Global::Filter<F, Mirror>::filter_*(v)` is `F::filter_*(v.local())` (kernel/global/filter.hpp): the driver runs the
+    `gvec` cases through the very same `Flt.apply`, so every theorem above is a theorem about the global wrapper. -/
+
+/-- `filter_rhs` / `filter_def`: the (frequency-weighted, i.e. global) dual mean of the result vanishes -/
+theorem C06.gmean_rhs_zero {α : Type} [Field α] [DecidableEq α] (comm : Bool) (prim dual freq : List α)
+    (f : GMeanF α) (hf : GMeanF.make comm prim dual freq = some f) (hne : prim ≠ []) (v w : List α)
+    (hrun : f.filterRhs v = some w) : GMeanF.wdot f.freq f.useFreq w f.prim = some 0 := by
+  unfold GMeanF.make at hf
+  simp only at hf
+  cases hvol : GMeanF.wdot freq (!freq.isEmpty && comm) prim dual with
+  | none => simp [hvol] at hf
+  | some vol =>
+    simp only [hvol, Option.some.injEq] at hf
+    subst hf
+    have hemp : prim.isEmpty = false := by cases h : prim <;> simp_all
+    simp only [GMeanF.filterRhs, GMeanF.dotAxpy, hemp, Bool.false_eq_true, if_false] at hrun ⊢
+    cases hint : GMeanF.wdot freq (!freq.isEmpty && comm) v prim with
+    | none => simp [hint] at hrun
+    | some integ =>
+      simp only [hint] at hrun
+      split at hrun
+      · simp at hrun
+      · rename_i hv0
+        split at hrun
+        · simp at hrun
+        · rename_i hlen
+          have hl : v.length = dual.length := by simpa using hlen
+          simp only [Option.some.injEq] at hrun
+          subst hrun
+          unfold GMeanF.wdot at hvol hint ⊢
+          cases hu : (!freq.isEmpty && comm) with
+          | true =>
+            simp only [hu, if_true] at hvol hint ⊢
+            split at hvol
+            · simp at hvol
+            · rename_i h1
+              split at hint
+              · simp at hint
+              · rename_i h2
+                simp only [Option.some.injEq] at hvol hint
+                have h1' : prim.length = freq.length ∧ dual.length = freq.length := by
+                  simpa [not_or] using h1
+                have h2' : v.length = freq.length ∧ prim.length = freq.length := by
+                  simpa [not_or] using h2
+                have hlw : (axpyL v dual (-integ / vol)).length = v.length := length_axpyL _ _ _ hl
+                have : ((axpyL v dual (-integ / vol)).length != freq.length ||
+                    prim.length != freq.length) = false := by simp [hlw, h2'.1, h2'.2]
+                simp only [this, Bool.false_eq_true, if_false, Option.some.injEq]
+                rw [tdotL_axpyL freq v dual prim _ hl (by omega), hint, tdotL_comm freq dual prim, hvol]
+                field_simp
+                ring
+          | false =>
+            simp only [hu, Bool.false_eq_true, if_false] at hvol hint ⊢
+            split at hvol
+            · simp at hvol
+            · split at hint
+              · simp at hint
+              · rename_i h2
+                simp only [Option.some.injEq] at hvol hint
+                have h2' : prim.length = v.length := by simpa using h2
+                have hlw : (axpyL v dual (-integ / vol)).length = v.length := length_axpyL _ _ _ hl
+                have : (prim.length != (axpyL v dual (-integ / vol)).length) = false := by simp [hlw, h2']
+                simp only [this, Bool.false_eq_true, if_false, Option.some.injEq]
+                rw [dotL_axpyL v dual prim _ hl, hint, dotL_comm dual prim, hvol]
+                field_simp
+                ring
